@@ -134,6 +134,13 @@ class H:
             return SymBool(z3.Implies(self._e(a), self._e(b)))
         return (not bool(a)) or bool(b)
 
+    def eq(self, a, b):
+        """Equality usable as a hypothesis in both modes."""
+        if self.mode == 'sym':
+            return SymBool(tosym(a).a == tosym(b).a)
+        a, b = float(a), float(b)
+        return abs(a - b) <= 1e-9 * max(1.0, abs(a), abs(b))
+
     # ---- obligations ----------------------------------------------------------------------------
     def _rec(self, key, kind, v, expect):
         ok = (v.verdict == expect)
@@ -157,6 +164,9 @@ class H:
                                     want_smt2=len(self.smt2) < 2)
                 allok &= self._rec(k, 'zero', v, 'unsat')
             return allok
+        if hyps and not all(bool(c) for c in hyps):
+            self.assumption_failed = True
+            return True
         xa = np.abs(np.asarray(x, dtype=float))
         bad = False
         if xa.ndim == 0:
